@@ -73,15 +73,6 @@ Proof.
   - lia.
 Qed.
 
-Lemma vlow_vput w (v old : list Z) : length v = w -> vlow w (vput w v old) = v.
-Proof.
-  intros H. unfold vlow, vput. rewrite firstn_app, firstn_firstn, Nat.min_id, firstn_length, H, Nat.min_id, Nat.sub_diag.
-  cbn [firstn]. rewrite app_nil_r. apply firstn_all2. lia.
-Qed.
-
-Lemma movmsk_small16 (v : list Z) : length v = 16%nat -> movmsk v mod two32 = movmsk v.
-Proof. intros H. pose proof (movmsk_range v) as R. rewrite H in R. change (2 ^ Z.of_nat 16) with 65536 in R. unfold two32. lia. Qed.
-
 (* SHLL len; SHRL 16 on the mask of [16-len stray bytes ++ s]: a separate lemma, because lia would pick this
    non-linear fact up from the context of the stepping proof and not come back *)
 Lemma shift_mask (J : list Z) : 1 <= len <= 15 -> length J = (16 - length s)%nat ->
